@@ -190,6 +190,13 @@ Forward(q) ==
   /\ Un(state)
   /\ Lbl("forward", q, IF dead THEN ERR ELSE R(TRUE, {}, {}, "relayed"))
 
+\* Extension relays a custom extension request through the agent client (no lock-flag check in the code);
+\* whether the underlying agent supports it is the environment's choice.  by = "relayed": the caller got the
+\* answer to its own request.
+Extension ==
+  /\ "extension" \in Ops /\ Un(state)
+  /\ \E r \in {ERR, R(TRUE, {}, {}, "relayed")} : (dead => r = ERR) /\ Lbl("extension", "", r)
+
 \* A client uses every signer object returned by Signers (Sign and SignWithAlgorithm).  This is a
 \* Signers call followed by signing calls, so it may purge like they do; by = "" unless a produced
 \* signature failed to verify under the signer's public key.
@@ -286,7 +293,8 @@ FaultAllowed ==
   /\ f.res.l1 \subseteq (mem' \cup under') /\ f.res.l2 \subseteq f.res.l1
   /\ (f.op = "forward" /\ f.res.ok) => f.res.by = "relayed"
 
-NextOps == \/ \E mode \in {"up", "noup"}, kind \in FaultKinds \cup {"none"} : Construct(mode, kind)
+NextOps == \/ Extension
+           \/ \E mode \in {"up", "noup"}, kind \in FaultKinds \cup {"none"} : Construct(mode, kind)
            \/ List \/ Signers \/ RemoveAll \/ Close \/ SignersUse
            \/ \E i \in Ids : Sign(i) \/ Add(i) \/ Remove(i)
            \/ \E c \in Certs : AddHard(c)
@@ -305,7 +313,7 @@ e == last'
 NF == e.f.kind = "none"
 Cnt(r, i) == IF i \in r.l2 THEN 2 ELSE IF i \in r.l1 THEN 1 ELSE 0
 B(x) == IF x THEN 1 ELSE 0
-ShimOps == {"list", "signers", "sign", "add", "addhard", "remove", "removeall", "lock", "unlock", "close", "forward"}
+ShimOps == {"list", "signers", "sign", "add", "addhard", "remove", "removeall", "lock", "unlock", "close", "forward", "extension"}
 
 \* C07 - no expired / premature / keyless certificate is listed or used; they are purged
 C07_Step ==
@@ -392,6 +400,7 @@ C10_Step ==
         /\ mem' = {}
         /\ IF ~dead /\ ~ulocked THEN (e.res.ok /\ under' = {}) ELSE (~e.res.ok /\ under' = under)
   /\ (e.op = "forward" /\ NF) => (UNCHANGED <<under, mem>> /\ (~dead => (e.res.ok /\ e.res.by = "relayed")))
+  /\ (e.op = "extension") => (UNCHANGED <<under, mem>> /\ (e.res.ok => e.res.by = "relayed"))
   \* construction (shimagent.New): lists the underlying agent only in no-upstream mode; a failure of
   \* that request is an error, never a crash
   /\ (e.op = "new") => (e.res.ok = (e.arg = "up" \/ NF))
